@@ -1,4 +1,4 @@
-// KNOWN FINDING (open): restart() of an active region located directly under an orthogonal root is ignored.
+// FIXED by c171cf0: restart() of an active region located directly under an orthogonal root was ignored.
 // Expected output 'a' (region C restarted into its first sub-state); the library prints 'b'.
 #include <hfsm2/machine.hpp>
 #include <cstdio>
